@@ -436,6 +436,7 @@ def sorting_cases(rnd, n, prefix="S", max_len=40, dtypes=None):
             x2 = vec(ops.rand_shape(rnd, 2, 0.0, (1, 2, 3), min_rank=1), "small")
             side = rnd.choice(["left", "right"])
             meta["side"] = side
+            meta["x2_rank"] = len(x2["shape"])
             if rnd.random() < 0.5:
                 srt = "x1s = np.sort(x1)"
                 out.append(mkcase(cid, {"x1": x1, "x2": x2}, f"out = ndx.searchsorted(ndx.sort(x1), x2, side='{side}')",
